@@ -74,7 +74,7 @@ def t1(prog, rep, rule="T1"):
     rep.check("try_into_payload(" in size_root, rule, "compare-candidate-payload",
               f"compares {size_root[:80]}", f"{body.file}:{c.line}")
     for (i, rv, line) in ai + ap:
-        rep.check(body.must_pass_edges(set(within), i), rule, f"commit<=within-bound:{line}",
+        rep.check(body.must_pass_edges(set(within), i), rule, rep.nth("commit<=within-bound"),
                   "the next submission is replaced by a candidate whose compressed payload was not "
                   "checked against the maximum payload size", f"{body.file}:{line}")
     # both assigned on the same paths
